@@ -1,3 +1,4 @@
+import GoRedisModel.Proofs.SourceFacts
 import GoRedisModel.Proofs.Truncate
 import GoRedisModel.Proofs.Loop
 import GoRedisModel.Properties.C02
@@ -68,5 +69,11 @@ example : parse 30 b!"*2\r\n$4\r\nLPOP\r\n$1\r\nl" = .err :=
   C11_prefix_is_error [b!"LPOP", b!"l"] (by
     refine ⟨by simp, ?_, by simp [maxInt]⟩
     intro b hb; simp at hb; rcases hb with rfl | rfl <;> simp [maxBulk]) 19 (by decide) (by decide) 28
+
+/-- **The source is the one the model was written from** (regenerated on every run): the connection loop (`serveConn`, `receive`, `dispatch`, `handleMessage`, `responseMessage`, `executeCommand`, `upperASCII`) of the current source
+have the fingerprints recorded in the model; a change to any of them means the theorems above are not shown for the code
+as it is now, until the model has been compared with it again -/
+theorem C11_source_conn_loop_is_the_modelled_one :
+    connLoopModelled.all (fun e => Generated.serverFingerprints.contains (e.1, e.2.1)) = true := source_conn_loop_is_the_modelled_one
 
 end GoRedis
